@@ -1,15 +1,17 @@
 #!/bin/bash
-# final pass: evaluate every delivered seed (in /tmp/seed/<ID>/) against its mapped checks with the current
-# checks, and register it under /verif/seeded/.   usage: seedfinal.sh [name ...]
-map=/tmp/seed/map.txt
+# final pass: evaluate every delivered seed (in $SEEDROOT/<ID>/) against its mapped checks with the current
+# checks, and register it under /verif/seeded/.   usage: [SEEDROOT=/tmp/seed PREFIX=] seedfinal.sh [name ...]
+root=${SEEDROOT:-/tmp/seed}
+map=$root/map.txt
+prefix=${PREFIX:-}
 sel="$@"
 while read name prop checks; do
   [ -n "$sel" ] && ! echo " $sel " | grep -q " $name " && continue
   id=${name%_*}; x=${name#*_}
-  p=/tmp/seed/$id/patch_$x.diff
+  p=$root/$id/patch_$x.diff
   [ -f $p ] || { echo "missing $p"; continue; }
-  out=/tmp/seed/final_$name
-  /venv/bin/python /verif/mc/mutate.py $p --tests --demo /tmp/seed/$id/demo_$x.py --checks $checks --json $out.json > $out.log 2>&1
-  /venv/bin/python /verif/mc/seedreg.py add $name --property $prop --patch $p --demo /tmp/seed/$id/demo_$x.py --notes /tmp/seed/$id/notes_$x.md --result $out.json > /dev/null
-  echo "$name: $(grep -E 'KILLED|silent' $out.log | awk '{print $1":"$2}' | tr '\n' ' ') tests=$(grep -o '[0-9]* passed' $out.log)"
+  out=$root/final_$name
+  /venv/bin/python /verif/mc/mutate.py $p --tests --demo $root/$id/demo_$x.py --checks $checks --json $out.json > $out.log 2>&1
+  /venv/bin/python /verif/mc/seedreg.py add $prefix$name --property $prop --patch $p --demo $root/$id/demo_$x.py --notes $root/$id/notes_$x.md --result $out.json > /dev/null
+  echo "$prefix$name: $(grep -E 'KILLED|silent' $out.log | awk '{print $1":"$2}' | tr '\n' ' ') tests=$(grep -o '[0-9]* passed' $out.log) demo=$(grep -o 'patched exit [0-9]' $out.log)"
 done < $map
